@@ -1369,6 +1369,12 @@ package main
 //@   nopanic
 //@   safe
 
+// (the deletion record of a {pres} or {meta}: its id and the number of ranges survive, each range by the contract above)
+//@ func pbDelValuesDeserialize(in *pbx.DelValues) (res *MsgDelValues)
+//@   modifies nothing
+//@   ensures [C20] del_id_kept: in != nil ==> res != nil && res.DelId == int(in.DelId) && len(res.DelSeq) == len(in.DelSeq)
+//@   ensures [C20] absent_stays_absent: in == nil ==> res == nil
+
 // C20: a presence notice keeps its actor and its target apart on the wire.
 //@ func pbServPresSerialize(pres *MsgServerPres) (r *pbx.ServerMsg_Pres)
 //@   requires [C20] pres != nil
